@@ -847,7 +847,34 @@ agraph ({xdecl}, float[{k}] z) => (float[?,?] out, float[?,?] h)
 }}"""
 
 
+def fam_random_ops(rng: Rng) -> str:
+    """Operators that draw random numbers, applied to constants: the folder must leave them alone (a folded draw differs from
+    process to process). One member per ONNX random operator, with and without a seed attribute."""
+    v = _variant(rng, [("bernoulli", 2), ("bernoulli_seed", 1), ("random_normal_like", 1), ("random_uniform_like", 1), ("random_normal", 1),
+                      ("random_uniform", 1), ("multinomial", 1), ("bernoulli_dtype", 1)])
+    stmt = {
+        "bernoulli": "b = Bernoulli(p)",
+        "bernoulli_seed": "b = Bernoulli <seed = 7.0> (p)",
+        "bernoulli_dtype": "b0 = Bernoulli <dtype = 11> (p)\n   b = Cast <to = 1> (b0)",
+        "random_normal_like": "b = RandomNormalLike(p)",
+        "random_uniform_like": "b = RandomUniformLike <high = 2.0> (p)",
+        "random_normal": "b = RandomNormal <shape = [4], dtype = 1> ()",
+        "random_uniform": "b = RandomUniform <shape = [4], dtype = 1> ()",
+        "multinomial": "m0 = Multinomial <sample_size = 4> (p2)\n   m1 = Cast <to = 1> (m0)\n   b = Reshape(m1, shp)",
+    }[v]
+    return f"""<ir_version: 9, opset_import: ["" : {rng.choice([15, 18, 20, 22])}]>
+agraph (float[4] x) => (float[4] y)
+<float[4] p = {{0.5, 0.25, 0.75, {rng.choice(["0.5", "0.1"])}}}, float[1,4] p2 = {{0.1, 0.2, 0.3, 0.4}}, int64[1] shp = {{4}}, float[4] k = {{1.0, 2.0, 3.0, 4.0}}>
+{{
+   {stmt}
+   c = Mul(k, k)
+   d = Add(b, c)
+   y = Add(x, d)
+}}"""
+
+
 FAMILIES = {
+    "random_ops": fam_random_ops,
     "opset_twins": fam_opset_twins,
     "local_functions": fam_local_functions,
     "user_rules": fam_user_rules,
@@ -888,7 +915,7 @@ agraph ({xdecl}, float[{a * b}] z) => (float[?,?] out)
 
 # families whose members walk through declared variants: a batch takes one member per variant (capped), so that every
 # special path of the rule's check() is in every batch; other families vary only in parameters and get 3 members
-N_VARIANTS = {"minmax": 4, "clip_relu": 4, "opset_twins": 20, "local_functions": 8, "user_rules": 12, "hardswish": 7, "conv_affine": 5, "expand_binary": 5, "reshape_matmul": 7, "scatter_nd": 4, "rms_norm": 4, "pad_conv": 12, "reshape_reshape": 8, "fold_chain": 10, "slice_split": 7, "const_if": 7}
+N_VARIANTS = {"random_ops": 8, "minmax": 4, "clip_relu": 4, "opset_twins": 20, "local_functions": 8, "user_rules": 12, "hardswish": 7, "conv_affine": 5, "expand_binary": 5, "reshape_matmul": 7, "scatter_nd": 4, "rms_norm": 4, "pad_conv": 12, "reshape_reshape": 8, "fold_chain": 10, "slice_split": 7, "const_if": 7}
 
 
 def members_per_batch(family: str, default: int, cap: int = 10) -> int:
